@@ -493,7 +493,8 @@ def ob_sum_capacity():
             return None
         want = float(np.sum(np.log1p(vals)) / np.log(2)) if vals.max() < 1e-6 else float(np.sum(np.log2(1 + vals)))
         got = float(s.calc_sum_capacity())
-        if (not (abs(got - want) <= 1e-9 * max(want, 1e-300) + (1e-16 * len(vals) if vals.max() < 1e-6 else 0.0))):
+        # binary64 of the stated formula itself: each log2(1 + x) carries the rounding of 1 + x (1.1e-16 / ln 2), plus the summation
+        if (not (abs(got - want) <= 1e-9 * max(want, 1e-300) + (5e-16 * len(vals) if vals.max() < 1e-6 else 0.0))):
             return {"calc_sum_capacity": got, "sum of log2(1+SINR) over the streams": want, "streams": int(len(vals)), "noise_var": nv}
         return None
     return bounded(gen(), check)
